@@ -488,7 +488,7 @@ func orderList(seed int64, shard, n int) []EvalCase {
 		out = append(out, EvalCase{Src: "hour(useTimezone(t0, '" + z + "'))", Data: datas[0]}, EvalCase{Src: "timeFormat(useTimezone(t0, '" + z + "'), 'MST -0700')", Data: datas[1]})
 	}
 	// sibling host functions: which of them an earlier formula called does not matter to a later one
-	for _, src := range []string{"fmk1(n0)", "fmk2(n0)", "mget1(s0)", "mget2(s0)", "[fmk2(1), fmk1(1)]", "[mget2('k'), mget1('k')]", "fmk1(fmk2(s0))", "mget2(mget1('q'))"} {
+	for _, src := range []string{"fmk1(n0)", "fmk2(n0)", "mget1(s0)", "mget2(s0)", "[fmk2(1), fmk1(1)]", "[mget2('k'), mget1('k')]", "fmk1(fmk2(s0))", "mget2(mget1('q'))", "frowA(ra)", "frowB(rb)", "[frowB(rb), frowA(ra)]", "frowA(rb)", "frowB(ra)"} {
 		for _, d := range datas {
 			out = append(out, EvalCase{Src: src, Data: d})
 		}
@@ -669,7 +669,7 @@ func runC08(w *core.W) {
 	}
 	// literal spellings that the scanner has to rewrite (escapes, digit separators), and spread calls over data containers
 	pool = append(pool, hostileLiteralPool...)
-	pool = append(pool, "fmk1(n0)", "fmk2(n0)", "mget1(s0)", "mget2(s0)", "[fmk2(1), fmk1(1)]", "[mget2('k'), mget1('k')]", "fmk1(fmk2(s0))", "mget2(mget1('q'))")
+	pool = append(pool, "fmk1(n0)", "fmk2(n0)", "mget1(s0)", "mget2(s0)", "[fmk2(1), fmk1(1)]", "[mget2('k'), mget1('k')]", "fmk1(fmk2(s0))", "mget2(mget1('q'))", "frowA(ra)", "frowB(rb)", "[frowB(rb), frowA(ra)]", "frowA(rb)", "frowB(ra)")
 	pool = append(pool, nearBuiltinCalls()...)
 	pool = append(pool, "ym.true", "ym.null", "ym.k", "ym.name", "[ym.true, ym.true, ym.true]", "ym!.true + ''", "-max(d0, n0)", "-min(d0, 1)", "-finite(d0)", "-fid(d0)", "~fid(d0)", "-max(d0, 0) + d0", "date(0, 3, 5)", "year(date(0, 1, 1))", "date(n0, 1, 1)", "timeFormat(date(0, 2, 29), '2006-01-02')", "addDate(t0, 0, 0, 0)", "year(t0) - year(date(1, 1, 1))", "date(0, 0, 0)", "weekDay(date(2024, 2, 29))")
 	for _, f := range append(append([]string{}, stdFuncs...), safeBuiltins()...) {
